@@ -325,10 +325,12 @@ func ExtremesFamily() []Named {
 	deepD := MapOf("int64", ArrayOf(MapOf("bool", ArrayOf(Simple("DeepLeaf")))))
 	deepE := MapOf("float64", MapOf("uint8", Simple("int32"))) // NaN keys: m[k] cannot be read back
 	deepF := MapOf("float32", ArrayOf(Simple("int32")))
+	deepG := MapOf("float32", Simple("string"))   // the byte path advances by the length of the value it reads back
+	deepH := MapOf("float64", Simple("DeepLeaf")) // ... or by its Size()
 	s.Defs = append(s.Defs,
 		&Def{Kind: "struct", Name: "DeepLeaf", Fields: []Field{f("a", Simple("int16")), f("s", Simple("string"))}},
-		&Def{Kind: "struct", Name: "DeepCS", Fields: []Field{f("a", deepA), f("b", deepB), f("c", deepC), f("d", deepD), f("e", deepE), f("f", deepF), f("tail", Simple("int32"))}},
-		&Def{Kind: "message", Name: "DeepCM", Fields: []Field{mf(1, "a", deepA), mf(2, "b", deepB), mf(3, "c", deepC), mf(4, "d", deepD), mf(6, "e", deepE), mf(7, "f", deepF), mf(5, "tail", Simple("int32"))}},
+		&Def{Kind: "struct", Name: "DeepCS", Fields: []Field{f("a", deepA), f("b", deepB), f("c", deepC), f("d", deepD), f("e", deepE), f("f", deepF), f("g", deepG), f("h", deepH), f("tail", Simple("int32"))}},
+		&Def{Kind: "message", Name: "DeepCM", Fields: []Field{mf(1, "a", deepA), mf(2, "b", deepB), mf(3, "c", deepC), mf(4, "d", deepD), mf(6, "e", deepE), mf(7, "f", deepF), mf(8, "g", deepG), mf(9, "h", deepH), mf(5, "tail", Simple("int32"))}},
 		&Def{Kind: "union", Name: "DeepCU", Branches: []Branch{
 			{Index: 1, Def: &Def{Kind: "struct", Name: "DeepCUs", Fields: []Field{f("b", deepB), f("a", deepA)}}},
 			{Index: 2, Def: &Def{Kind: "message", Name: "DeepCUm", Fields: []Field{mf(1, "d", deepD), mf(2, "c", deepC)}}}}})
